@@ -119,7 +119,13 @@ def check_rrsig_input(ctx, rng, t):
             if (got is None) != (want is None):
                 ctx.violation(f"rrsig-input-accept-reject-differs:{'wild' if owner[0] == b'*' else 'plain'}", f"owner={owner!r} labels={labels}: lib {'rejects' if got is None else 'accepts'}, reference {'rejects' if want is None else 'accepts'}", case)
             elif got is not None and got != want:
-                if t in ("LP", "CH-A") and got.lower() == want.lower():
+                folded = None
+                if t in ("LP", "CH-A"):
+                    # causal diagnosis: is the whole difference (content and, with it, the canonical order of the
+                    # records) explained by this type's names being lower-cased?
+                    folded = RD.rrsig_signing_input(owner, int(rds.rdtype), int(rds.rdclass), fixed, signer, labels, ottl,
+                                                    [_fold_names(v, None) for v in vals if GR.build(v) in rds])
+                if folded is not None and got == folded:
                     ctx.violation(f"canonical-form-differs:{t}:downcases-name-not-in-rfc4034-6.2", "via signing input", case)
                 else:
                     ctx.violation(f"rrsig-signing-input-differs:{t}", f"owner={owner!r} labels={labels} lib={got.hex()} ref={want.hex()}", case)
